@@ -87,3 +87,9 @@ func ZZ_C15_stored_record() {
 	zz.Assert(zz.Implies(!known, nRel == 0), "nothing is released for an item of unknown type")
 	zz.Reach("stored-record-survived")
 }
+
+// C15 (stored records, start-up): dropping the items whose interface is no
+// longer attached never panics, whatever mix of items a record holds and
+// wherever the vanished ones sit (the filter deletes from the slice it walks).
+// Same exploration as ZZ_C05_filter_eni_not_found.
+func ZZ_C15_filter_stored_records_no_panic() { ZZ_C05_filter_eni_not_found() }
